@@ -19,7 +19,7 @@
    CAS log after that access). *)
 From Coq Require Import Floats.
 From SG Require Import Base.Prelude Base.GoInt Base.GoFloat Model.Breaker Model.BreakerConc
-  Proofs.BreakerConcProofs.
+  Proofs.BreakerConcProofs Model.BreakerLeaf Proofs.BreakerLeafProofs.
 #[local] Open Scope Z_scope.
 
 (* Clause 1: "each transition is performed by exactly one caller and reported to listeners
@@ -175,6 +175,72 @@ Proof.
   cbv zeta. split; [vm_compute; congruence|]. split; [apply sev_okb_spec; vm_compute; reflexivity|]. vm_compute. repeat split; reflexivity.
 Qed.
 
+(* ---- Round 3: the branches of the pc machine ARE the Go source ----
+   Model/BreakerLeaf.v transcribes TryPass / OnRequestComplete / the from*To* helpers as functions
+   from the values the code loads to its result and its list of actions; translator/leaf
+   regenerates them from the Go source on every run (translator/leaf/C03_leaf_check.v: equal for
+   all inputs; C12_leaf_check.v: the statements below with the regenerated functions in place of
+   the transcriptions).  At every load of shared state the step function of the model above
+   takes the branch of the transcription at the loaded value, for all configurations, shared
+   states and threads. *)
+Theorem C12_trypass_branches_are_source : forall c tid clk sh th,
+  (tpc th = T301 ->
+     snd (tstep c tid clk sh th) =
+     match sw sh with
+     | Open => with_pc th T303
+     | s => finish (result th (fst (try_pass_leaf (probe_num c) s (dl sh) clk true)))
+     end) /\
+  (tpc th = T303 ->
+     tstep c tid clk sh th =
+     (sh, if retry_arrived (dl sh) clk then with_pc th (T302 clk (dtag sh))
+          else finish (result th (fst (try_pass_leaf (probe_num c) Open (dl sh) clk true))))) /\
+  (forall rnow rtag d, tpc th = T302 rnow rtag -> retry_arrived d rnow = true ->
+     tres (snd (tstep c tid clk sh th)) =
+       tres th ++ [fst (try_pass_leaf (probe_num c) Open d rnow (bst_eqb (sw sh) Open))]).
+Proof.
+  intros c tid clk sh th. split; [|split].
+  - intros H. exact (proj1 (conc_T301 c tid clk sh th H)).
+  - exact (conc_T303 c tid clk sh th).
+  - intros rnow rtag d H Ha. exact (proj1 (conc_T302 c tid clk sh th rnow rtag d H Ha)).
+Qed.
+
+Theorem C12_complete_branches_are_source : forall c tid clk sh th,
+  (forall bad B T, tpc th = C301 bad B T -> forall s2 p,
+     tstep c tid clk sh th =
+     (sh, match sw sh with
+          | Closed => if (T <? min_amt c) || negb (reached c B T)
+                      then goto th (decide_leaf c Closed s2 p bad B T)
+                      else with_pc th (C301b B T)
+          | s1 => goto th (decide_leaf c s1 s2 p bad B T)
+          end)) /\
+  (forall bad B T, tpc th = C301b B T -> (T <? min_amt c) = false -> reached c B T = true ->
+     forall p, tstep c tid clk sh th = (sh, goto th (decide_leaf c Closed (sw sh) p bad B T))) /\
+  (tpc th = C314 ->
+     forall s2 B T, tstep c tid clk sh th = (sh, goto th (tl (decide_leaf c HalfOpen s2 (pn sh) false B T)))).
+Proof.
+  intros c tid clk sh th. split; [|split].
+  - exact (conc_C301 c tid clk sh th).
+  - exact (conc_C301b c tid clk sh th).
+  - exact (conc_C314 c tid clk sh th).
+Qed.
+
+(* the pcs behind a successful CAS stop at the yield labels of the transcription's actions, in
+   the transcription's order; a failed CAS performs nothing else *)
+Theorem C12_transition_order_is_source : forall sn,
+  map label (chain_co sn) = map act_label (snd (from_closed_to_open_leaf true sn))
+  /\ map label (chain_ho sn) = map act_label (snd (from_half_to_open_leaf true sn))
+  /\ map label chain_hc = map act_label (snd (from_half_to_closed_leaf true))
+  /\ (forall a b blk, map label [T302 a b; T307 blk] = map act_label (firstn 2 (snd (from_open_to_half_leaf true false))))
+  /\ map label [R302; R307] = map act_label (rollback_leaf true true).
+Proof. exact chain_labels. Qed.
+
+Example C12_source_nonvacuous :
+  tpc (with_pc (init_thread [OTry false]) T303) = T303 /\
+  tpc (with_pc (init_thread [OComplete 0 true]) (C301 true 1 1)) = C301 true 1 1 /\
+  (1 <? min_amt (w_cfg 100)) = false /\ reached (w_cfg 100) 1 1 = true /\
+  decide_leaf (w_cfg 100) Closed Closed 0 true 1 1 = [AClosedToOpen (open_snapshot (w_cfg 100) 1 1)].
+Proof. vm_compute. repeat split; reflexivity. Qed.
+
 Print Assumptions C12_transition_unique.
 Print Assumptions C12_transition_unique_quiescent.
 Print Assumptions C12_single_probe.
@@ -182,3 +248,6 @@ Print Assumptions C12_admissions_are_results.
 Print Assumptions C12_full_timeout_partial.
 Print Assumptions C12_full_timeout_refuted.
 Print Assumptions C12_full_timeout_refuted_reopen.
+Print Assumptions C12_trypass_branches_are_source.
+Print Assumptions C12_complete_branches_are_source.
+Print Assumptions C12_transition_order_is_source.
